@@ -389,7 +389,7 @@ def run_sequence(cfgs, filepath):
 DEFECTS = ['head_noclose', 'bodiless_body', 'push_cl', 'empty_chunk', 'chunk_noterm', 'stream_sized',
            'listwish', 'casewish', 'tailappend', 'shortread', 'unsized205', 'lenclose', 'bodiless205']
 VARIANTS = ['tree', 'rfc']          # tree = the repository as it is: the intended algorithm + "listwish"
-TREE_DEFECTS = ['unsized205']      # known_findings.d/C15.json; [] once fixes/C15-205-framing.diff is committed
+TREE_DEFECTS = []
 
 
 def cfg_of(h):
